@@ -25,6 +25,7 @@ import collections, contextlib, ctypes, dataclasses, functools, logging, os, pat
 import string, struct, subprocess, errno, stat as _stat, heapq, weakref, warnings, traceback, typing  # noqa: E401,F401
 
 CUR: "Scheduler | None" = None
+_TLS = _rt.local()
 
 WATCHDOG_MODULES = [
     "watchdog.utils", "watchdog.utils.bricks", "watchdog.utils.delayed_queue", "watchdog.utils.event_debouncer",
@@ -91,10 +92,10 @@ class Scheduler:
 
     # ---- identity
     def me(self) -> TState | None:
-        ident = _rt.get_ident()
-        for t in self.threads:
-            if t.real is not None and t.real.ident == ident:
-                return t
+        # thread-local, not ident-based: the OS re-uses idents of finished threads
+        t = getattr(_TLS, "ts", None)
+        if t is not None and t.sched is self and not t.done:
+            return t
         return None
 
     def unique(self, base):
@@ -136,6 +137,7 @@ class Scheduler:
         t = TState(self, self.unique(name), role)
 
         def boot():
+            _TLS.ts = t
             t.go.acquire()
             try:
                 if not self.killed:
